@@ -134,7 +134,9 @@ func Slices(cols ...interface{}) Frame {
 		} else if cap := v.Cap(); cap < f.cap {
 			f.cap = cap
 		}
-		f.data[i] = newData(v)
+	}
+	for i := range cols {
+		f.data[i] = newData(fullCap(reflect.ValueOf(cols[i]), f.cap))
 	}
 	return f
 }
@@ -159,9 +161,21 @@ func Values(cols []reflect.Value) Frame {
 		} else if cap := v.Cap(); cap < f.cap {
 			f.cap = cap
 		}
-		f.data[i] = newData(v)
+	}
+	for i, v := range cols {
+		f.data[i] = newData(fullCap(v, f.cap))
 	}
 	return f
+}
+
+// fullCap returns the slice v extended to the n rows of capacity
+// that a frame may address: the frame's columns represent the whole
+// of the storage behind a frame, not only its initial length.
+func fullCap(v reflect.Value, n int) reflect.Value {
+	if v.Len() == n && v.Cap() == n {
+		return v
+	}
+	return v.Slice3(0, n, n)
 }
 
 // Copy copies the contents of src until either dst has been filled
